@@ -87,6 +87,9 @@ fn check(case: &SubCase, run: &mut Run) -> Result<(), (Vec<u8>, String)> {
     let inputs = inputs_for(&p, def, &[], &[], 250, 700, run);
     for input in &inputs {
         run.eval(1);
+        if input.len() >= 2 {
+            run.sample(|| json!({"definition": p.rust, "input": show(input)}));
+        }
         let f = findings_for("C01", &p, def, input, None, key);
         if let Some(x) = f.first() {
             return Err((input.clone(), format!("on input {}: {}", show(input), x.what)));
